@@ -94,7 +94,7 @@ def run(ctx):
     nsite = 0
     for bb, what in sites:
         nsite += 1
-        deps = [(sw, cond, arms, tg) for (sw, cond, arms, tg) in ctx.path_conditions(v, bb)] + [(sw, cond, sure, maybe) for (sw, cond, sure, maybe) in ctx.control_deps(v, bb)]
+        deps = [(sw, cond, arms, tg) for (sw, cond, arms, tg) in ctx.path_conditions(v, bb)] + [(sw, cond, sure, maybe) for (sw, cond, sure, maybe) in ctx.control_deps_transitive(v, bb)]
         seen_sw = set()
         for (sw, cond, arms, tg) in deps:
             if (sw, arms) in seen_sw:
